@@ -452,6 +452,8 @@ class ChunkSeq(Grid):
                     z3.Implies(nz > 0, z3.And((bz - 1) * cz < nz, nz <= bz * cz)))))
                 self.nb = nb
                 _NB_CACHE_put(n, c, nb)
+                # (nb-1) == (n-1) div c  for n >= 1
+                ctx.register_quotient(nb - 1, n - 1, c)
         return self.nb
 
     def get(self, interp, k):
